@@ -740,8 +740,9 @@ func typeTokenSoup(rng *rand.Rand) string {
 func corruptC04(rng *rand.Rand, c ACase) ACase {
 	line := c.input()
 	// the body must not be able to repair the header: use one without ( ) . :
-	if j := strings.Index(line, "): "); j >= 0 {
-		line = line[:j+3] + []string{"", "a=b x=1", "pid=7 comm=\"x\""}[rng.Intn(3)]
+	// (the padded variants of genC04 have no blank after "):", so cut at "):" itself)
+	if j := strings.Index(line, "):"); j >= 0 {
+		line = line[:j+2] + " " + []string{"", "a=b x=1", "pid=7 comm=\"x\""}[rng.Intn(3)]
 	}
 	i := strings.Index(line, "msg=") + 4
 	end := strings.Index(line[i:], ")") + i
